@@ -110,10 +110,10 @@ Definition fsection_ok (s : fsection) : bool :=
 Definition file_layout_ok (fl : file_layout) : bool :=
   forallb fsection_ok fl && (length (filter is_xml fl) =? 1)%nat.
 
-(** A compressed-vector section that is followed by nothing at all - no padding, no other
-    entry, and ([after] = 0) no filler up to the end of the last page - cannot be told from a
-    truncated file by a reader that seeks to the first packet: the theorems about readers
-    exclude this corner. *)
+(** [pcs_followed]: no compressed-vector section is followed by nothing at all - no padding, no
+    other entry, and ([after] = 0) no filler up to the end of the last page.  Not a requirement
+    of the format and no longer a hypothesis of any theorem (Proofs/SpecReaderTail.v); kept as
+    a classification of generated layouts (the corner it names once was a defect of the reader). *)
 Fixpoint fsecs_len (fl : file_layout) (xl : N) : N :=
   match fl with
   | [] => 0
